@@ -4,7 +4,8 @@
 use std::path::PathBuf;
 use std::rc::Rc;
 use std::sync::atomic::AtomicBool;
-use std::sync::{Arc, Mutex};
+use std::sync::Arc;
+use verif_rt::sched::sync::Mutex;
 use std::time::Instant;
 
 use serde_json::{json, Value as J};
